@@ -1,5 +1,6 @@
 #![allow(dead_code)]
 //! verif-check <ID> <quick|thorough>  |  verif-check <ID> --replay <file>
+mod astnorm;
 mod checks;
 mod drive;
 mod runner;
